@@ -31,10 +31,19 @@ partial def parseMapMembers (tt : TyTab) : List Sexp → Option Tree
         | some (.list [_, .atom t]) => Tag.name t
         | _ => Tag.none
       some (.field { name := name, ty := ty, tag := tag, get := o.hasFlag "get", set := o.hasFlag "set", newMark := o.hasFlag "new", joined := o.hasFlag "join" } r)
+    | .list [.atom "e", .atom name, .atom _, .atom "back", .list (.atom "body" :: _)] =>
+      some (.embed name true .nil r)          -- a back reference of a cyclic embedding: the unfolding stops
     | .list [.atom "e", .atom name, .atom p, .list (.atom "body" :: ms)] => do
       let b ← parseMapMembers tt ms
       some (.embed name (p == "ptr") b r)
     | _ => none
+
+/-- does some embed of the member list carry the `back` mark -/
+partial def hasBack : List Sexp → Bool
+  | [] => false
+  | .list [.atom "e", _, _, .atom "back", _] :: _ => true
+  | .list [.atom "e", _, _, .list (.atom "body" :: ms)] :: rest => hasBack ms || hasBack rest
+  | _ :: rest => hasBack rest
 
 structure MapCase where
   inp : Input
@@ -92,7 +101,8 @@ def parseMapCase (payload : List Sexp) : Option MapCase := do
   let slots := p.field? "slots"
   some { inp := { way := way, ic := ic, src := src, dest := dest, srcNew := sk == "new", destNew := dk == "new",
                   fns := fns, mapperPtr := mptr, conv := conv,
-                  manualW := atoms (man.bind (·.field? "w")), manualR := atoms (man.bind (·.field? "r")) },
+                  manualW := atoms (man.bind (·.field? "w")), manualR := atoms (man.bind (·.field? "r")),
+                  cyclic := hasBack sms || hasBack dms },
          prop := prop, masks := atoms (p.field? "masks"), fmasks := atoms (p.field? "fmasks"),
          srcSlots := atoms (slots.bind (·.field? "src")), destSlots := atoms (slots.bind (·.field? "dest")) }
 
@@ -101,13 +111,13 @@ def mapCase (id : String) (payload : List Sexp) : List String :=
   | none => err id "bad-map-case"
   | some c =>
     match c.prop with
-    | "C05" => both id (obs15 c.inp ++ obsRT c.inp ++ obsPart c.inp c.srcSlots c.destSlots c.masks c.fmasks)
+    | "C05" => both id (obsGen c.inp (obs15 c.inp ++ obsRT c.inp ++ obsPart c.inp c.srcSlots c.destSlots c.masks c.fmasks))
                  (spec15 c.inp ++ specRT c.inp ++ specPart c.inp c.srcSlots c.destSlots c.masks c.fmasks)
-                 (region05 c.inp)   -- obs05 + write counts + round trip + partially nil chains
-    | "C01" => both id (obs01 c.inp) allOk (region01 c.inp)
-    | "C15" => both id (obs15 c.inp) (spec15 c.inp) (region15 c.inp)
-    | "C09" => both id (obs09 c.inp c.srcSlots c.destSlots c.masks c.fmasks)
-                 (spec09 c.inp c.srcSlots c.destSlots c.masks c.fmasks) (region09 c.inp)
+                 (regionGen c.inp (region05 c.inp) "Out")   -- obs05 + write counts + round trip + partially nil chains
+    | "C01" => both id (obsGen c.inp (obs01 c.inp)) allOk (regionGen c.inp (region01 c.inp) "F_mapSelfEmbed")
+    | "C15" => both id (obsGen c.inp (obs15 c.inp)) (spec15 c.inp) (regionGen c.inp (region15 c.inp) "Out")
+    | "C09" => both id (obsGen c.inp (obs09 c.inp c.srcSlots c.destSlots c.masks c.fmasks))
+                 (spec09 c.inp c.srcSlots c.destSlots c.masks c.fmasks) (regionGen c.inp (region09 c.inp) "F_selfEmbed")
     | _ => err id "unknown-prop"
 
 end ShootVerif.Drive
